@@ -472,6 +472,20 @@ def check_schemes(F, rep, S):
                     alphas = [v.fields["alpha"]] if isinstance(v, Struct) else [x.fields["alpha"] for x in getattr(v, "items", []) if isinstance(x, Struct)]
                     ok = ok and alphas and all(sym.val_eq(a_, c.fields["alpha"]) for a_ in alphas)
                     rep.ob("SHAPE-FWD", key, ok, repr(v)[:200], F.loc(b))
+                    # the form on a colour wrapped with alpha gives exactly the by-value form on the bare colour, result by result, in the
+                    # same order: evaluate the bare colour's impl on c.color and wrap each result with c.alpha
+                    inner_ty = self_s[len("alpha::alpha::Alpha<"):].rsplit(",", 1)[0].strip()
+                    inner = [ms2.get(m) for im2, ms2 in impl_methods(F, "color_theory::" + tr) if im2["self_s"] == inner_ty]
+                    if len(inner) == 1 and inner[0] is not None:
+                        try:
+                            iv, _ = S.ev.eval_body(inner[0], [c.fields["color"]])
+                            wrap = lambda x: Struct(c.path, {"color": x, "alpha": c.fields["alpha"]})
+                            exp = Tuple([wrap(x) for x in iv.items]) if isinstance(iv, Tuple) else wrap(iv)
+                            check_value(rep, "ALG-SIB", key + " = bare", S, b, v, exp, sample="each result = the bare colour's result with self.alpha, same order")
+                        except (Opaque, poly.TooBig, AttributeError, KeyError) as ex:
+                            rep.fail("ALG-SIB", key + " = bare", "uninterpretable: %s" % ex, F.loc(b))
+                    else:
+                        rep.fail("ALG-SIB", key + " = bare", "no impl of %s for the bare colour %s to compare with" % (tr, inner_ty), F.loc(b))
                 else:
                     # Lab-like: complementary negates (a, b); tetradic rotates (a,b)->(-b,a)
                     fa, fb = ("a", "b") if "a" in c.fields else ("u", "v")
